@@ -54,6 +54,8 @@ def _pit(A, k, tol, seed, ev=True):
 def _case(args):
     tid, lam, seed, K, tol = args
     n = len(lam)
+    sc = (1.0, 2.0 ** -40, 2.0 ** 20, 2.0 ** -20)[tid % 4]        # exact power-of-two scaling of the whole matrix
+    lam = [x * sc for x in lam]
     ul = E.ulib(n)
     U = ul[(seed + 3) % len(ul)][1]
     A = E.herm_from_spectrum(U, lam)
@@ -63,7 +65,7 @@ def _case(args):
     rho = (others[0] / abs(l1)) if others else 0.0
     gap_lg = lg(rho) if rho > 0 else -100000
     nrm2 = abs(l1)
-    ev = [{"tid": tid, "ev": "Start", "lam": [int(round(x * 10)) for x in lam], "tol_lg": lg(tol), "gap_lg": gap_lg,
+    ev = [{"tid": tid, "ev": "Start", "lam": [int(round(x / sc * 10)) for x in lam], "scale_lg": lg(sc), "tol_lg": lg(tol), "gap_lg": gap_lg,
            "sign": "pos" if l1 > 0 else "neg", "n": n, "seed": seed}]
     prev = None
     stopped_at = None
